@@ -20,6 +20,10 @@ pub struct P(pub u32);
 pub struct S(pub u32);
 #[derive(Component, Serialize, Deserialize, Clone, PartialEq, Debug)]
 pub struct R(#[entities] pub Entity);
+#[derive(Component)]
+pub struct HistMarker;
+#[derive(Component)]
+pub struct PlainMarker;
 /// A zero-sized component: its serialized form is empty (zero-length ranges in the change bookkeeping).
 #[derive(Component, Serialize, Deserialize, Clone, PartialEq, Debug)]
 pub struct Z;
@@ -158,6 +162,11 @@ pub struct Cfg {
     /// entity indices on both sides of the points where their wire encoding grows (64, 8192)
     #[serde(default)]
     pub entity_offset: u16,
+    /// client command markers: every replicated client entity carries a marker that wants history (and overrides nothing)
+    /// and a marker without history that overrides the writing of `A` and `S` with the default functions - by the
+    /// documentation a configuration that behaves exactly like no markers at all
+    #[serde(default)]
+    pub markers: bool,
 }
 
 impl Default for Cfg {
@@ -189,6 +198,7 @@ impl Default for Cfg {
             bundle: false,
             owners: false,
             entity_offset: 0,
+            markers: false,
         }
     }
 }
